@@ -10,7 +10,7 @@ from ..common import derive_seed, exc_key, rng_for
 
 PROPERTY = "C19"
 LEVEL = "exploration"
-RULE = ("tracked graphs of seeded programs (as C18, always with list ops cat/stack/rotate-half, keyword tensor arguments, integer index "
+RULE = ("tracked graphs of seeded programs (as C18, always with list ops cat/stack/rotate-half written with a list or a tuple, positionally or as tensors=..., keyword tensor arguments, integer index "
         "tensors, views / negations, optionally several outputs and a final variable literally named 'output'), after a real forward+"
         "backward run; each graph is given to prune_non_float_tensors, prune_same_scale_tensors (rtol in {2^-16, 2^-8, 2^-2}) and "
         "prune_selected_nodes (random target sets). Oracle: an independent model (networkx) of the documented removal sets with a "
